@@ -343,6 +343,26 @@ def build(reg, src):
                             detail='; '.join(bad[:3]) or f"{total} verb symbols dispatch to the function documenting that symbol"))
         return res
     reg.extra_checks.append(check_dispatch)
+    # (bounded, labelled) Match (~): kg_equal is not under contract (NumPy type dispatch); every pair of a closed universe of values is
+    # compared with the structural definition "two lists match iff they have the same length and their members match pairwise"
+    def match_standin(ctx):
+        from pyvc.run import run_replay
+        from replay import c01 as rp1
+
+        def go(inputs, name):
+            n, problems = rp1.match_bounded()
+            return dict(n=n, problems=problems)
+        r = run_replay(go, {}, 'match(bounded)', timeout_s=120)
+        if not isinstance(r, dict) or 'n' not in r:
+            return [dict(name='klongpy/backends/base.py::kg_equal#match(bounded)::all-pairs', ok=False, undecided=True, backend='exhaustive-enumeration(bounded)', detail=str(r)[:200])]
+        ok = not r['problems']
+        return [dict(name='klongpy/backends/base.py::kg_equal#match(bounded)::all-pairs', ok=ok, backend='exhaustive-enumeration(bounded)', confirmed=not ok,
+                     detail=f"{r['n']} ordered pairs over atoms and lists up to length 3 / depth 2" if ok else '; '.join(r['problems']),
+                     replay=dict(harness='replay/c01.py: match_bounded()', result=r))]
+    match_standin.__name__ = 'match-bounded'
+    reg.extra_checks.append(match_standin)
+    reg.bounded.append(dict(check='Match (~) / kg_equal', tool='exhaustive enumeration of value pairs against the structural definition',
+                            bound='atoms (ints, reals, character, symbol, strings) and lists of length <= 3, nesting depth <= 2: about 72 000 ordered pairs', result='see rows'))
     from pyvc.leancheck import lean_check
     reg.extra_checks.append(lean_check('Arith.lean', ['mod_block', 'mod_shift', 'mod_shift_back', 'mod_range', 'mul_ge', 'mul_nonpos', "mul_nonneg'"]))
     from replay import c01 as rp
